@@ -188,7 +188,7 @@ impl<'a> SimdOp for SimdTopK<'a> {
             .collect();
         topk.sort_by(|a, b| compare_gt(a.1, b.1));
 
-        if k == 0 || logits.len() == k {
+        if k == 0 || logits.len() <= k {
             return topk;
         }
 
@@ -392,6 +392,25 @@ mod tests {
         let logits = Logits::dense(vec![]);
         let topk = TopK::new(1).filter(logits, &[]);
         assert!(topk.is_empty());
+    }
+
+    #[test]
+    fn test_top_k_exceeds_len() {
+        let logits = Logits::dense(vec![1., 3., 2.]);
+        for k in [4, 5, 100] {
+            let topk = TopK::new(k).filter(logits.clone(), &[]);
+            assert_eq!(topk.logits(), &[3., 2., 1.]);
+            assert_eq!(topk.indices(), &[1, 2, 0]);
+        }
+
+        // Top-P leaves fewer candidates than K.
+        let logits = Logits::dense(vec![0.5, 0.25, 0.25]);
+        let chain = Chain::new()
+            .append(TopP::new(0.5).normalize(false))
+            .top_k(3);
+        let filtered = chain.filter(logits, &[]);
+        assert_eq!(filtered.logits(), &[0.5]);
+        assert_eq!(filtered.indices(), &[0]);
     }
 
     #[test]
